@@ -318,7 +318,7 @@ def _{name}_sparse(self, other):
     return self.copy()._i{name}_sparse(other)
     
 def _{name}_scalar(self, other):
-    if other.__class__ in bools:
+    if other.__class__ in bools or getattr(other, 'dtype', None) in bools:
         return self.copy()._i{name}_scalar(other)
     else:
         self = SparseVector.from_dict({{i: 1. for i in self.set}}, self.size)
